@@ -1180,11 +1180,17 @@ class SmtLibParser(object):
         self.consume_opening(tokens, command)
         res: List[Union[FNode, str]] = []
         while True:
-            try:
-                current = cast(Union[FNode, str], assert_not_none(self.get_expression(tokens)))
-                res.append(current)
-            except PysmtSyntaxError:
+            # The list ends at its closing parenthesis only: a syntax
+            # error inside one of the expressions is an error of the
+            # command (it used to end the list silently, with the
+            # binders of the broken expression still in the cache)
+            tk = tokens.consume("Unexpected end of stream in %s command." %
+                                command)
+            if tk == ")":
                 return res
+            tokens.add_extra_token(tk)
+            current = cast(Union[FNode, str], assert_not_none(self.get_expression(tokens)))
+            res.append(current)
 
     def consume_opening(self, tokens: Tokenizer, command: str):
         """ Consumes a single '(' """
@@ -1215,20 +1221,26 @@ class SmtLibParser(object):
         commands in SmtLib
         """
         symbols = self.env.formula_manager.symbols
-        self.cache.update(symbols)
-        tokens = Tokenizer(script, interactive=self.interactive)
-        res = []
-        self.consume_opening(tokens, "<main>")
-        current = tokens.consume()
-        while current != ")":
-            if current != "(":
-                raise PysmtSyntaxError("'(' expected", tokens.pos_info)
-            vname = self.get_expression(tokens)
-            expr = self.get_expression(tokens)
-            self.consume_closing(tokens, current)
-            res.append((vname, expr))
+        self.cache.checkpoint()
+        try:
+            self.cache.update(symbols)
+            tokens = Tokenizer(script, interactive=self.interactive)
+            res = []
+            self.consume_opening(tokens, "<main>")
             current = tokens.consume()
-        self.cache.unbind_all(symbols)
+            while current != ")":
+                if current != "(":
+                    raise PysmtSyntaxError("'(' expected", tokens.pos_info)
+                vname = self.get_expression(tokens)
+                expr = self.get_expression(tokens)
+                self.consume_closing(tokens, current)
+                res.append((vname, expr))
+                current = tokens.consume()
+            self.cache.unbind_all(symbols)
+        except Exception:
+            # A list that cannot be read leaves no binding behind
+            self.cache.rollback()
+            raise
         return res
 
     def get_command(self, tokens: Tokenizer) -> Iterator[SmtLibCommand]:
